@@ -144,6 +144,16 @@ def _sb_cert_block():
     return cb
 
 
+_SIGPROV = []
+
+
+def _sigprov():
+    """One signature provider per interpreter for the builds through the classes (loading the RSA key dominates their cost)."""
+    if not _SIGPROV:
+        _SIGPROV.append(get_signature_provider(local_file_key=PRIV))
+    return _SIGPROV[0]
+
+
 def sb20_ctor(n, ex):
     if ex:
         return BootImageV20(False, KEK, _sb_section(n), advanced_params=_adv(ex))
@@ -156,7 +166,7 @@ def sb21_ctor(n, ex):
     else:
         img = BootImageV21(KEK, _sb_section(n))
     img.cert_block = _sb_cert_block()
-    img.signature_provider = get_signature_provider(local_file_key=PRIV)
+    img.signature_provider = _sigprov()
     return img
 
 
@@ -247,7 +257,7 @@ def mbi_ctor(n, ex):
         load_address=0x80000,
         trust_zone=TrustZone.disabled(),
         cert_block=CertBlockV1.from_config(cfg, [job["dir"]]),
-        signature_provider=get_signature_provider(local_file_key=PRIV),
+        signature_provider=_sigprov(),
         hmac_key=USER["mbi_key"],
         key_store=None,
         user_hw_key_enabled=False,
